@@ -262,6 +262,14 @@ func Flush() {
 // Main is used as TestMain body: runs the tests, flushes the statistics.
 func Main(m *testing.M, meta Meta) {
 	SetMeta(meta)
+	SafetyNets()
+	code := m.Run()
+	Flush()
+	os.Exit(code)
+}
+
+// SafetyNets is for the test binaries that have a TestMain of their own.
+func SafetyNets() {
 	// Safety net: a generated program (or the harness itself) that grows without bound must kill this one
 	// process, not the machine. Only the soft limit is set, child processes choose their own.
 	// ... and a memory limit for the Go runtime, which is what grol's own allocation guard measures against: generated
@@ -274,9 +282,6 @@ func Main(m *testing.M, meta Meta) {
 		rl.Cur = 10 << 30
 		_ = syscall.Setrlimit(syscall.RLIMIT_AS, &rl)
 	}
-	code := m.Run()
-	Flush()
-	os.Exit(code)
 }
 
 // ---- failures and replay -------------------------------------------------------------------
